@@ -155,8 +155,10 @@ impl Parse for TimelineOrMergeConfig {
         if input.peek(token::Bracket) {
             let content;
             let _ = bracketed!(content in input);
-            let timelines =
-                Punctuated::<TimelineConfig, Token![,]>::parse_separated_nonempty(&content)?;
+            let timelines = Punctuated::<TimelineConfig, Token![,]>::parse_terminated(&content)?;
+            if timelines.is_empty() {
+                return Err(content.error("Expected at least one timeline in the list."));
+            }
             Ok(Self {
                 timelines: timelines.into_iter().collect(),
             })
